@@ -2756,6 +2756,12 @@ func (s *ImmuStore) txOffsetAndSize(txID uint64) (int64, int, error) {
 	txOffset := int64(binary.BigEndian.Uint64(cb))
 	txSize := int(binary.BigEndian.Uint32(cb[offsetSize:]))
 
+	if txOffset < 0 || txSize > len(s._txbs) {
+		// a transaction is never bigger than the buffer used to serialize it,
+		// the caller allocates a read buffer of the announced size
+		return 0, 0, fmt.Errorf("%w: invalid offset (%d) or size (%d) of transaction %d", ErrCorruptedCLog, txOffset, txSize, txID)
+	}
+
 	return txOffset, txSize, nil
 }
 
